@@ -782,6 +782,15 @@ class C19:
                 comps = ["d"] + comps
             files.append([comps, rng.choice([5, 100, 16384, 20000, 0, 0, 32768]), rng.randrange(1 << 30)])
         name = h1 if pos in ("name", "both") else rng.choice(["T", "pay load"])
+        if rng.random() < 0.06:
+            # two entries that resolve to ONE destination path (a/../data.bin and data.bin) with different lengths and
+            # a candidate for each: nothing leaves the destination by name, but whatever is placed first is written
+            # over by the second - an implementation that places by hard link would write into the search directory
+            pos, name = "alias-pair", rng.choice(["T", "pay load"])
+            sizes = rng.sample([3000, 7000, 16384, 20000, 100], 2)
+            files = [[["a", "..", "data.bin"], sizes[0], rng.randrange(1 << 30)], [["data.bin"], sizes[1], rng.randrange(1 << 30)]]
+            if rng.random() < 0.5:
+                files.reverse()
         return {"version": version, "pos": pos, "name": name, "files": files, "via": rng.choice(["lib", "cli"]),
                 "single": False, "seed": rng.randrange(1 << 30), "meta_as_dir": rng.random() < 0.35,
                 "retry_same_object": rng.random() < 0.35}
@@ -812,7 +821,11 @@ class C19:
             comps = [fixabs(c) for c in comps]
             data = content(cs, size)
             files.append((tuple(comps), data))
-            with open(os.path.join(search, comps[-1]), "wb") as fd:
+            cand = os.path.join(search, comps[-1])
+            if case["pos"] == "alias-pair":
+                cand = os.path.join(search, f"s{len(files)}", comps[-1])       # same base name twice: one directory each
+                os.makedirs(os.path.dirname(cand))
+            with open(cand, "wb") as fd:
                 fd.write(data)
         # v2 trees cannot hold two identical keys / '' as a directory key ambiguity: build may merge; fine.
         try:
